@@ -191,6 +191,9 @@ class BalancedMarket(Strategy):
                         # reset SoC
                         sim_vehicle.battery.soc = old_soc
                         cur_power = (max_power + min_power) / 2
+                        if max_power - min_power <= self.EPS:
+                            # converged, but last try not sufficient: take last safe value
+                            cur_power = max_power
                         for ts_idx in same_price_ts:
                             p = min(timesteps[ts_idx]["power"], cur_power)
                             p = util.clamp_power(p, vehicle, cs)
